@@ -65,7 +65,7 @@ def _mk(kind, H, V):
         base, faces = SH.nonconvex("L_prism")
         return S.Polyhedron(placed(base, "r1"), [rnp.array(f) for f in faces], faces_are_convex=True)
     if kind == "ConvexPolyhedron":
-        return S.ConvexPolyhedron(placed(SH.CONVEX["wedge"], "r2"))
+        return S.ConvexPolyhedron(placed(SH.CONVEX["pyramid"], "r2"))  # vertex mean != centroid
     if kind == "ConvexSpheropolyhedron":
         # a core whose vertex mean differs from its centroid (a box would hide any confusion of the two)
         return S.ConvexSpheropolyhedron(placed(SH.CONVEX["pyramid"], "id"), H.num(F(1, 2)))
